@@ -223,9 +223,34 @@ def signal_words():
     (= response head received) followed by 0..3 response body chunks"""
     for sent in range(3):
         head = ["request_start"] + ["request_chunk_sent"] * sent
-        yield head + ["request_exception"]
+        # the exception kinds aiohttp reports through on_request_exception: client-side timeout, connection refused / reset, server
+        # closed the connection
+        for exc in ("timeout", "os-error", "disconnected"):
+            yield head + ["request_exception:" + exc]
         for chunks in range(4):
             yield head + ["request_end"] + ["response_chunk_received"] * chunks
+
+
+def signal_params(sig):
+    """the parameter object aiohttp hands to a trace callback for this signal"""
+    import aiohttp
+    import aiohttp.tracing as tr
+    import multidict
+    import yarl
+
+    url, hdrs = yarl.URL("http://127.0.0.1:9200/_search"), multidict.CIMultiDict()
+    name, _, arg = sig.partition(":")
+    if name == "request_start":
+        return tr.TraceRequestStartParams("GET", url, hdrs)
+    if name == "request_chunk_sent":
+        return tr.TraceRequestChunkSentParams("GET", url, b"{}")
+    if name == "request_end":
+        return tr.TraceRequestEndParams("GET", url, hdrs, None)
+    if name == "response_chunk_received":
+        return tr.TraceResponseChunkReceivedParams("GET", url, b"{}")
+    exc = {"timeout": asyncio.TimeoutError(), "os-error": aiohttp.ClientOSError(111, "connection refused"),
+           "disconnected": aiohttp.ServerDisconnectedError()}[arg]
+    return tr.TraceRequestExceptionParams("GET", url, hdrs, exc)
 
 
 def l0_run(words, res):
@@ -247,17 +272,22 @@ def l0_run(words, res):
                     for i, sig in enumerate(word):
                         await asyncio.sleep(1)
                         times[i] = CLOCK.now
-                        for cb in getattr(tc, "on_" + sig):
-                            await cb(None, None, None)
+                        for cb in getattr(tc, "on_" + sig.split(":")[0]):
+                            await cb(None, None, signal_params(sig))
                     return ctx.request_start, ctx.request_end, times
 
             CLOCK.start()
             try:
                 (start, end, times), loop = vloop.run(fire(), chooser=explore.Chooser(()), horizon=1000.0)
+            except Exception as ex:  # noqa
+                v = ("wire-callback-raises", f"signals {word}: {type(ex).__name__}: {ex}")
+                start = end = None
+                times = None
             finally:
                 CLOCK.stop()
+        if v is None and tcs:
             want_start = times[0]
-            want_end = max(t for i, t in times.items() if word[i] in ("request_end", "response_chunk_received", "request_exception"))
+            want_end = max(t for i, t in times.items() if word[i].split(":")[0] in ("request_end", "response_chunk_received", "request_exception"))
             if (start, end) != (want_start, want_end):
                 v = ("wire-signals", f"signals {word} one second apart: recorded ({start}, {end}), the request started at {want_start} and its last response-side signal came at {want_end}")
         res.case(case_repr={"L0_signals": word} if res.sample_now(5) else None, nontrivial_key=("L0", tuple(word)), outcome_key=("L0", len(word), v[0] if v else "ok"))
